@@ -26,10 +26,12 @@ pub struct ServerOpts {
     /// None: the harness chooses a free port and passes it through the environment
     pub port: Option<u16>,
     pub pass_port_and_threads: bool,
+    /// run the server under a wrapper command (e.g. strace -f -o log -e trace=%file)
+    pub wrapper: Vec<String>,
 }
 
 impl ServerOpts {
-    pub fn new(docroot: &Path, threads: u32) -> ServerOpts { ServerOpts { docroot: docroot.to_path_buf(), ip: "127.0.0.1".into(), threads, env: vec![], args: vec![], port: None, pass_port_and_threads: true } }
+    pub fn new(docroot: &Path, threads: u32) -> ServerOpts { ServerOpts { docroot: docroot.to_path_buf(), ip: "127.0.0.1".into(), threads, env: vec![], args: vec![], port: None, pass_port_and_threads: true, wrapper: vec![] } }
 }
 
 pub struct Server {
@@ -60,7 +62,7 @@ impl Server {
             let log = super::scratch_base().join(format!("rwsv-server-{}-{}.log", std::process::id(), n));
             let logf = std::fs::File::create(&log).map_err(|e| e.to_string())?;
             let logf2 = logf.try_clone().map_err(|e| e.to_string())?;
-            let mut cmd = Command::new(rws_bin());
+            let mut cmd = if opts.wrapper.is_empty() { Command::new(rws_bin()) } else { let mut c = Command::new(&opts.wrapper[0]); for a in &opts.wrapper[1..] { c.arg(a); } c.arg(rws_bin()); c };
             cmd.current_dir(&opts.docroot).stdin(Stdio::null()).stdout(logf).stderr(logf2);
             for (k, _) in std::env::vars() { if k.starts_with("RWS_CONFIG_") { cmd.env_remove(k); } }
             if opts.pass_port_and_threads {
@@ -114,9 +116,18 @@ impl Server {
         v
     }
 
+    /// Worker indices without a thread of that name. A freshly spawned thread names itself a moment after it appears in /proc,
+    /// so an apparent gap is re-read for up to a second before it is believed.
     pub fn missing_workers(&self) -> Vec<u32> {
-        let names = self.thread_names();
-        (0..self.threads).filter(|i| !names.contains(&i.to_string())).collect()
+        let deadline = Instant::now() + Duration::from_secs(1);
+        loop {
+            let names = self.thread_names();
+            let missing: Vec<u32> = (0..self.threads).filter(|i| !names.contains(&i.to_string())).collect();
+            // a thread that exists but still carries the process name is a worker that has not named itself yet
+            let unnamed = names.iter().filter(|n| n.as_str() == "rws").count();
+            if missing.is_empty() || unnamed <= 1 || Instant::now() > deadline { return missing; }
+            std::thread::sleep(Duration::from_millis(5));
+        }
     }
 
     pub fn sigstop(&mut self) { unsafe { libc::kill(self.pid(), libc::SIGSTOP); } self.stopped = true; }
